@@ -9,9 +9,13 @@
 (*   "loc"     request vectors of length <= LocLen in every way of locating the tree     *)
 (*   "allfib"  the fibre-omitted calls                                                   *)
 (*   "append"  spec_append on all shapes <= AppMax x AppMax, shifts -AppMax..AppMax      *)
+(*   "long"    scrambled request vectors of 17..40 elements                              *)
+(*   "runs"    the requests on one file are a contiguous block of k fibres in every      *)
+(*             order a block can be asked for (RunShapes), alone or interleaved with     *)
+(*             requests on another file                                                  *)
 (* The states with pc = "done" carry the call and the dictionary readspec must return.   *)
 EXTENDS ReadSpec, TLC
-CONSTANTS Families, MaxLen, LocLen, Fibs, AppMax, LongLens, LongSeeds
+CONSTANTS Families, MaxLen, LocLen, Fibs, AppMax, LongLens, LongSeeds, RunLens, RunSeeds
 VARIABLES pc, b, call, req, keys, ki, blk, acc, ret
 vars == <<pc, b, call, req, keys, ki, blk, acc, ret>>
 
@@ -54,6 +58,43 @@ LongVec(n, s, v) ==
          k == Scramble(i + s, s + 1, NF)
      IN [plate |-> Tree[f].plate, mjd |-> Tree[f].mjd, fib |-> k]]
 
+(* "runs" family: the k requests on file f ask for the fibres of the contiguous block       *)
+(* a..a+k-1 (k in RunLens: from 2 up to more fibres than any "few rows" special case; the    *)
+(* block at the start, inside and at the end of the plate).  A block can be asked for in     *)
+(* ascending order - the one order in which reading a slice of the file and gathering the    *)
+(* rows one by one coincide - and in every other: descending, rotated, with two neighbours   *)
+(* swapped, with the end points in place and the interior reversed / rotated, and with an    *)
+(* interior fibre replaced by its predecessor (one fibre twice, one not at all, end points   *)
+(* still spanning k-1).  Row i of the result belongs to request i in all of them.            *)
+RunShapes == {"asc", "desc", "rot", "swap", "dup", "ends-rev", "ends-rot"}
+RunFib(sh, a, k, s, i) ==
+  LET up == a + i - 1
+      n == k - 2                                    \* interior positions 2..k-1
+  IN CASE sh = "asc" -> up
+       [] sh = "desc" -> a + k - i
+       [] sh = "rot" -> a + ((i - 1 + s) % k)
+       [] sh = "swap" -> LET pos == (s % (k - 1)) + 1 IN IF i = pos THEN up + 1 ELSE IF i = pos + 1 THEN up - 1 ELSE up
+       [] sh = "dup" -> IF k >= 3 /\ i = (s % n) + 2 THEN up - 1 ELSE up
+       [] sh = "ends-rev" -> IF i = 1 \/ i = k THEN up ELSE a + (k - i)
+       [] sh = "ends-rot" -> IF i = 1 \/ i = k THEN up ELSE a + 1 + ((i - 2 + s) % n)
+RunVec(f, sh, a, k, s) == [i \in 1..k |-> [plate |-> Tree[f].plate, mjd |-> Tree[f].mjd, fib |-> RunFib(sh, a, k, s, i)]]
+(* the same block with a request on file g in front of every two of its elements *)
+Mixed(run, g, s) ==
+  LET k == Len(run) IN
+  [j \in 1..(k + ((k + 1) \div 2)) |->
+     LET t == (j - 1) \div 3
+         r == (j - 1) % 3
+     IN IF r = 0 THEN [plate |-> Tree[g].plate, mjd |-> Tree[g].mjd, fib |-> Scramble(t + s, s, NF)]
+        ELSE run[2 * t + r]]
+RunCall(bb, cv) == [kind |-> "readspec", fam |-> "runs", conv |-> cv, loc |-> "env", mem |-> "plain", num |-> "int",
+                    p |-> MkCall(bb, cv, "env").p, m |-> MkCall(bb, cv, "env").m, f |-> MkCall(bb, cv, "env").f]
+(* what makes a vector a member of the family: on one of its files the requested fibres all *)
+(* lie in a block as wide as the number of requests on that file                            *)
+IsBlockOn(rq, key) ==
+  LET fs == {rq[i].fib : i \in {j \in DOMAIN rq : KeyOf(rq[j]) = key}}
+      lo == CHOOSE x \in fs : \A y \in fs : x <= y
+  IN MaxOf(fs) - lo < Len(Positions(rq, key))
+
 NoCall == [kind |-> "none"]
 Blank(p) == /\ pc = p /\ b = <<>> /\ call = NoCall /\ req = <<>> /\ keys = <<>> /\ ki = 0
             /\ blk = Empty /\ acc = Empty /\ ret = <<>>
@@ -84,6 +125,14 @@ Init ==
           /\ Fits(LongVec(n, s, v), cv)
           /\ call = MkCall(LongVec(n, s, v), cv, "env")
      /\ pc = "call" /\ b = <<>> /\ req = <<>> /\ keys = <<>> /\ ki = 0 /\ blk = Empty /\ acc = Empty /\ ret = <<>>
+  \/ /\ "runs" \in Families
+     \* one cheap initial state per block description; the vectors and calls are built by RunSubmit (all workers)
+     /\ \E k \in RunLens : \E f \in Files : \E sh \in RunShapes : \E s \in RunSeeds : \E mixed \in BOOLEAN :
+          /\ k <= Tree[f].nfib
+          /\ \E a \in {1, 3, Tree[f].nfib - k + 1} :
+               /\ a + k - 1 <= Tree[f].nfib
+               /\ b = <<[k |-> k, file |-> f, sh |-> sh, s |-> s, a |-> a, mixed |-> mixed]>>
+     /\ pc = "runs" /\ call = NoCall /\ req = <<>> /\ keys = <<>> /\ ki = 0 /\ blk = Empty /\ acc = Empty /\ ret = <<>>
   \/ /\ "allfib" \in Families
      /\ \/ \E f \in Files : \E om \in BOOLEAN :
               /\ om => Tree[f].mjd = Latest(Tree[f].plate)
@@ -104,6 +153,13 @@ Submit == /\ pc = "build" /\ b # <<>>
           /\ \E cv \in Convs : Fits(b, cv) /\ call' = MkCall(b, cv, "env")
           /\ pc' = "call" /\ b' = <<>>
           /\ UNCHANGED <<req, keys, ki, blk, acc, ret>>
+RunSubmit == /\ pc = "runs"
+             /\ LET d == b[1]
+                    run == RunVec(d.file, d.sh, d.a, d.k, d.s)
+                    vec == IF d.mixed THEN Mixed(run, (d.file % Len(Tree)) + 1, d.s) ELSE run
+                IN \E cv \in Convs : Fits(vec, cv) /\ call' = RunCall(vec, cv)
+             /\ pc' = "call" /\ b' = <<>>
+             /\ UNCHANGED <<req, keys, ki, blk, acc, ret>>
 Normalise == /\ pc = "call" /\ req' = Requests(call) /\ pc' = "group"
              /\ UNCHANGED <<b, call, keys, ki, blk, acc, ret>>
 Group == /\ pc = "group" /\ keys' = SortedKeys(req) /\ ki' = 1 /\ pc' = "read"
@@ -117,15 +173,15 @@ ReorderStep == /\ pc = "reorder" /\ acc' = Reorder(acc) /\ pc' = "return"
                /\ UNCHANGED <<b, call, req, keys, ki, blk, ret>>
 ReturnStep == /\ pc = "return" /\ ret' = Return(acc, req) /\ acc' = Empty /\ pc' = "done"
               /\ UNCHANGED <<b, call, req, keys, ki, blk>>
-Next == Extend \/ Submit \/ Normalise \/ Group \/ ReadFile \/ AppendStep \/ ReorderStep \/ ReturnStep
+Next == Extend \/ Submit \/ RunSubmit \/ Normalise \/ Group \/ ReadFile \/ AppendStep \/ ReorderStep \/ ReturnStep
 
 (* ------------------------------ properties ---------------------------------- *)
-ASSUME TreeWellFormed /\ LayoutWellFormed /\ OrderRelationsCovered
+ASSUME TreeWellFormed /\ LayoutWellFormed /\ OrderRelationsCovered /\ SolutionRelationsCovered
 Done == pc = "done"
-TypeOK == /\ pc \in {"build", "file", "call", "group", "read", "append", "reorder", "return", "done", "appended"}
+TypeOK == /\ pc \in {"build", "runs", "file", "call", "group", "read", "append", "reorder", "return", "done", "appended"}
           /\ ki \in 0..(Len(Tree) + 1)
           /\ (call.kind = "readspec") => (ValidCall(call) /\ call.loc \in Locs /\ call.mem \in Mems /\ call.num \in Nums)
-          /\ (pc \notin {"build", "file", "call", "appended"}) => RequestOK(req)
+          /\ (pc \notin {"build", "runs", "file", "call", "appended"}) => RequestOK(req)
 C16_RowIdentity == Done => RowIdentity(req, ret)
 C16_NoShift == Done => NoShift(req, ret)
 C16_ZeroPadRight == Done => ZeroPadRight(req, ret)
@@ -149,6 +205,8 @@ C16_IndexBookkeeping ==
         /\ \A x \in DOMAIN acc.img : Len(acc.img[x]) = Len(acc.img[1])
   /\ (pc = "reorder") => IsPermutation(acc.pos, Len(req))
   /\ (pc = "return") => acc.pos = [i \in DOMAIN req |-> i]
+(* the "runs" family is what it says: some file's requests lie in a block no wider than their number *)
+C16_RunsAreBlocks == (pc = "group" /\ "fam" \in DOMAIN call) => \E key \in {KeyOf(req[i]) : i \in DOMAIN req} : IsBlockOn(req, key)
 IsApp == pc = "appended"
 C16_AppendShape == IsApp => AppendShape(AppArgs(call)[1], AppArgs(call)[2], call.shift, ret)
 C16_AppendNoOverlap == IsApp => AppendNoOverlap(AppArgs(call)[1], AppArgs(call)[2], call.shift, ret)
